@@ -74,6 +74,7 @@ type cnValidator struct {
 	consAddr  []byte // CometBFT validator address
 	consPub   cmtcrypto.PubKey
 	name      string
+	rot       map[string]signature.Signer // current rotatable keys: p2p, vrf, tls
 }
 
 type cnUser struct {
@@ -91,6 +92,7 @@ type cnNet struct {
 	users    []*cnUser
 	scratch  string
 	names    map[string]string // address / key -> short name
+	pendingRot map[*cnTxSpec]map[string]signature.Signer // key rotations proposed by not yet executed registrations
 }
 
 func q(n uint64) quantity.Quantity { return *quantity.NewFromUint64(n) }
@@ -103,7 +105,7 @@ func (d detRand) Read(p []byte) (int, error) { return d.r.Read(p) }
 func newNet(cfg cnCfg, scratch string) (*cnNet, error) {
 	viper.Set("debug.dont_blame_oasis", true)
 	viper.Set("debug.allow_test_keys", true)
-	n := &cnNet{cfg: cfg, scratch: scratch, names: map[string]string{}}
+	n := &cnNet{cfg: cfg, scratch: scratch, names: map[string]string{}, pendingRot: map[*cnTxSpec]map[string]signature.Signer{}}
 	rng := rand.New(rand.NewSource(cfg.Seed*7919 + 17))
 	fac := memorySigner.NewFactory()
 	mk := func(role signature.SignerRole) signature.Signer {
@@ -124,6 +126,7 @@ func newNet(cfg cnCfg, scratch string) (*cnNet, error) {
 			return nil, fmt.Errorf("identity: %w", err)
 		}
 		v := &cnValidator{ident: ident, name: fmt.Sprintf("N%d", i)}
+		v.rot = map[string]signature.Signer{"p2p": ident.P2PSigner, "vrf": ident.VRFSigner, "tls": ident.TLSSigner}
 		if i < cfg.Validators {
 			v.entSigner = mk(signature.SignerEntity)
 			v.ent = &entity.Entity{Versioned: cbor.NewVersioned(entity.LatestDescriptorVersion), ID: v.entSigner.Public()}
@@ -349,13 +352,13 @@ func (n *cnNet) nodeDescriptor(i int, expiration uint64, mod func(*node.Node)) (
 		ID:         v.ident.NodeSigner.Public(),
 		EntityID:   v.ent.ID,
 		Expiration: beacon.EpochTime(expiration),
-		TLS:        node.TLSInfo{PubKey: v.ident.TLSSigner.Public()},
-		P2P:        node.P2PInfo{ID: v.ident.P2PSigner.Public(), Addresses: []node.Address{p2pAddr}},
+		TLS:        node.TLSInfo{PubKey: v.rot["tls"].Public()},
+		P2P:        node.P2PInfo{ID: v.rot["p2p"].Public(), Addresses: []node.Address{p2pAddr}},
 		Consensus: node.ConsensusInfo{
 			ID:        v.ident.ConsensusSigner.Public(),
 			Addresses: []node.ConsensusAddress{{ID: v.ident.ConsensusSigner.Public(), Address: consensusAddr}},
 		},
-		VRF:   node.VRFInfo{ID: v.ident.VRFSigner.Public()},
+		VRF:   node.VRFInfo{ID: v.rot["vrf"].Public()},
 		Roles: node.RoleValidator,
 	}
 	if mod != nil {
@@ -365,7 +368,7 @@ func (n *cnNet) nodeDescriptor(i int, expiration uint64, mod func(*node.Node)) (
 }
 
 func (n *cnNet) signNode(v *cnValidator, nd *node.Node, ctx signature.Context) (*node.MultiSignedNode, error) {
-	signers := []signature.Signer{v.ident.NodeSigner, v.ident.P2PSigner, v.ident.ConsensusSigner, v.ident.VRFSigner, v.ident.TLSSigner}
+	signers := []signature.Signer{v.ident.NodeSigner, v.rot["p2p"], v.ident.ConsensusSigner, v.rot["vrf"], v.rot["tls"]}
 	return node.MultiSignNode(signers, ctx, nd)
 }
 
